@@ -158,6 +158,31 @@ def _cmp_rule(ctx, index):
     ctx.need(n >= 1, "cmp_ast no longer pairs the two sequences (recogniser out of date)")
 
 
+def _nothing_to_lose(facts):
+    """
+    a guard known to hold of the form `not path.isfile(F) or path.getsize(F) == 0`: every alternative says there is no
+    content a truncating write could destroy (no file, or an empty one)
+    """
+
+    def empty_or_missing(e):
+        t = " ".join(norm(e).split())
+        if isinstance(e, ast.UnaryOp) and isinstance(e.op, ast.Not):
+            inner = " ".join(norm(e.operand).split())
+            return inner.endswith(("isfile(filename)", "exists(filename)", "getsize(filename)")) or inner.endswith("st_size")
+        return t.endswith(("getsize(filename) == 0", ".st_size == 0")) or t.startswith("0 == ")
+
+    for text, truth in facts.items():
+        if truth is not True or " or " not in text:
+            continue
+        try:
+            e = ast.parse(text, mode="eval").body
+        except SyntaxError:
+            continue
+        if isinstance(e, ast.BoolOp) and isinstance(e.op, ast.Or) and all(empty_or_missing(v) for v in e.values):
+            return True
+    return False
+
+
 def run(ctx):
     """entry"""
     cf = None
@@ -215,7 +240,7 @@ def run(ctx):
 
         for g, call, _w, mode in writes:
             facts = rfacts.at(g, call, ascend_from=reg.funcs[1:]) or {}
-            created = facts.get("path.isfile(filename)") is False
+            created = facts.get("path.isfile(filename)") is False or _nothing_to_lose(facts)
             appended = any(facts.get("{} is None".format(v)) is True for v in orig_vars) and mode == "a"
             if created or appended:
                 ctx.ob("C12.gate", g, short(call, 70), True, "creation write", line=call.lineno)
@@ -373,15 +398,29 @@ def run(ctx):
         do_ = index.func("cdd.shared.conformance._default_options")
         ctx.need("emit_func" in cf_.params, "_conform_filename no longer takes the emitter as `emit_func`")
         n_calls = 0
-        for g_, n in Region(index, RefGraph(index), cf_).nodes():
+        reg_ = Region(index, RefGraph(index), cf_)
+
+        def passes_options(g_, call, depth=2):
+            """does `call` (inside g_) splat `_default_options(...)()` — directly, or by forwarding g_'s own **kwargs, which
+            every call site of g_ then has to fill that way"""
+            for k_ in call.keywords:
+                if k_.arg is not None:
+                    continue
+                full = expand_aliases(g_, k_.value)
+                if any(isinstance(x, (ast.Name, ast.Attribute)) and index.resolve(g_.mod, x, g_) == do_.qual for x in ast.walk(full)):
+                    return True
+                kw = g_.node.args.kwarg
+                if kw is not None and isinstance(k_.value, ast.Name) and k_.value.id == kw.arg and depth > 0:
+                    sites = reg_.callsites.get(g_.qual) or []
+                    if sites and all(passes_options(c_, n_, depth - 1) for c_, n_ in sites):
+                        return True
+            return False
+
+        for g_, n in reg_.nodes():
             if not (isinstance(n, ast.Call) and isinstance(n.func, ast.Name) and n.func.id == "emit_func"):
                 continue
             n_calls += 1
-            ok_ = False
-            for k_ in n.keywords:
-                if k_.arg is None:
-                    full = expand_aliases(g_, k_.value)
-                    ok_ = ok_ or any(isinstance(x, (ast.Name, ast.Attribute)) and index.resolve(g_.mod, x, g_) == do_.qual for x in ast.walk(full))
+            ok_ = passes_options(g_, n)
             ctx.ob(
                 "C12.create",
                 g_,
